@@ -41,6 +41,9 @@ class Validator():
 
     def validate(self, json):
         problems = []
+        if not isinstance(json, dict):
+            problems.append(f'{self.parser.root} is {json!r} but should be an Object')
+            return problems
         validator = NodeValidator(self.parser)
         validator.validate_node(json, self.parser.root, [self.parser.root], problems)
         return problems
@@ -127,7 +130,8 @@ class NodeValidator():
         #print()
         #print(f"validate_node {node} {path} {roles} {problems}")
 
-        if not node or not isinstance(node, dict):
+        # An empty object is still validated: it lacks every required field.
+        if not isinstance(node, dict):
             return
 
         # May have more roles based on field presence/value etc
@@ -466,6 +470,9 @@ class FieldTypeConstraint(Constraint):
         elif self.type == "referencePath"and not JSONPathChecker().is_reference_path(value):
              self.report(path, value, "a Reference Path", problems)
         elif self.type == "timestamp":
+            if not isinstance(value, str) or not value:
+                self.report(path, value, "an RFC3339 timestamp", problems)
+                return
             # Preprocess RFC3339 into template strptime format
             if value[-1] == "Z":
                 date = value[:-1]
